@@ -164,11 +164,25 @@ def fault_arg(rng, kind, want):
 # work item
 # --------------------------------------------------------------------------------------------
 
+HEADER_CALLS = ('gen_trace_header', 'gen_trace_header_all', 'get_tracefield_values', 'em_header', 'em_attributes',
+                'tracefield_sweep', 'header_sweep', 'em_attributes_sweep')
+
+
+def _family(call):
+    return 'header' if call[0] in HEADER_CALLS else 'sample'
+
+
 def gen_item(ctx, run):
     seed = ctx['seed']
     lib = ctx['lib']
     wl = core.stream(seed, run, 'workload')
     e = lib[wl.randrange(len(lib))]
+    if wl.random() < 0.2:
+        # irregular files carry the most lazily built state (mask, padding modes): a fifth of the items
+        # are drawn from them alone
+        irr = [x for x in lib if x['meta']['kind'] == 'irreg']
+        if irr:
+            e = irr[wl.randrange(len(irr))]
     m = e['meta']
     remote = wl.random() < 0.5
     opener = wl.choice(OPENERS_REMOTE if remote else OPENERS_LOCAL)
@@ -177,7 +191,18 @@ def gen_item(ctx, run):
         target = ['open']
     else:
         target = battery.gen_call(wl, m, kind) if wl.random() < 0.7 else wl.choice(battery.fixed_battery(m, kind))
-    warm = [battery.gen_call(wl, m, kind) for _ in range(wl.choice([0, 0, 1, 2, 3]))] if target[0] != 'open' else []
+    warm = []
+    if target[0] != 'open':
+        # warm-ups: half of them from the same family as the target (header-type calls before a header-type
+        # target, sample reads before a sample read): state left by a related call is what a fault can poison
+        for _ in range(wl.choice([0, 0, 1, 2, 3])):
+            c = battery.gen_call(wl, m, kind)
+            if wl.random() < 0.5:
+                for _ in range(8):
+                    if _family(c) == _family(target):
+                        break
+                    c = battery.gen_call(wl, m, kind)
+            warm.append(c)
     follow = ([['text_header'], ['bin_header']] if target[0] == 'open' else [target]) + \
         [battery.gen_call(wl, m, kind) for _ in range(wl.choice([1, 1, 2]))]
     policy = wl.choice(core.POLICIES)
